@@ -4,6 +4,8 @@ package main
 
 import (
 	"context"
+	"fmt"
+	"regexp"
 	"go/types"
 	"os/exec"
 	"time"
@@ -12,6 +14,8 @@ import (
 
 	"golang.org/x/tools/go/ssa"
 )
+
+var symRe = regexp.MustCompile(`[A-Za-z_][A-Za-z0-9_!]*`)
 
 func (e *Engine) lemmaObligations(prop string) []*Obligation {
 	var out []*Obligation
@@ -63,4 +67,65 @@ func runSolverSimple(sp solverSpec, file string, timeoutSec int) solverAnswer {
 	cmd.Run()
 	first := strings.TrimSpace(strings.SplitN(out.String(), "\n", 2)[0])
 	return solverAnswer{solver: sp.name, answer: first, output: out.String(), ms: time.Since(start).Milliseconds()}
+}
+
+func (e *Engine) dummyCtx(pkgPath, name string) *FnCtx {
+	p := e.Pkgs[pkgPath]
+	fc := &FnCtx{eng: e, name: name,
+		svSort: map[string]Sort{}, svHeap: map[string]bool{}, nextInc: map[string]int{}, declared: map[string]bool{},
+		vals: map[ssa.Value]Val{}, counters: map[string]int{}, assumptions: map[string]bool{}, ghostTypes: map[string]types.Type{},
+		safety: map[string]bool{}, localAllocs: map[string][]*ssa.Alloc{}}
+	if p != nil {
+		fc.tpkg = p.Types
+	}
+	b := fc.newBlock("entry")
+	fc.cur = b
+	fc.env = &Env{inc: map[string]string{}, places: map[string]*Place{}}
+	return fc
+}
+
+// LoadAxioms translates the axiom clauses of all contract files whose package
+// is loaded.  An axiom is included in a query when one of the spec functions
+// it mentions occurs there.
+func (e *Engine) LoadAxioms() error {
+	for i, ax := range e.Axioms {
+		p := e.Pkgs[ax.PkgPath]
+		if p == nil {
+			continue
+		}
+		fc := e.dummyCtx(ax.PkgPath, "axiom")
+		var err error
+		func() {
+			defer func() {
+				if r := recover(); r != nil {
+					if te, ok := r.(transErr); ok {
+						err = fmt.Errorf("%s:%d: axiom: %s", ax.Cl.File, ax.Cl.Line, string(te))
+						return
+					}
+					panic(r)
+				}
+			}()
+			sc := &Scope{fc: fc, mode: "global", env: fc.env, pkg: p.Types}
+			t := sc.trBool(ax.Cl.E)
+			if len(fc.decls) > 0 {
+				err = fmt.Errorf("%s:%d: axiom mentions program state", ax.Cl.File, ax.Cl.Line)
+				return
+			}
+			var keys []string
+			for _, w := range symRe.FindAllString(t.S, -1) {
+				if strings.HasPrefix(w, "sf_") || strings.HasPrefix(w, "pf_") {
+					keys = append(keys, w)
+				}
+			}
+			if len(keys) == 0 {
+				err = fmt.Errorf("%s:%d: axiom mentions no spec function", ax.Cl.File, ax.Cl.Line)
+				return
+			}
+			e.GAxiom(fmt.Sprintf("user_axiom_%d", i), "(assert "+t.S+")", keys...)
+		}()
+		if err != nil {
+			return err
+		}
+	}
+	return nil
 }
